@@ -8,6 +8,8 @@ import (
 	"os"
 	"os/exec"
 	"path/filepath"
+	"reflect"
+	"strings"
 	"time"
 
 	"github.com/brocaar/lorawan"
@@ -285,9 +287,62 @@ func (c *ctx) genStream(dir string, maxBytes int) []M {
 	return items
 }
 
+// cmdTypeEvents: which Go payload type a decoded MAC command carries (the API's documented naming: <CommandName>Payload),
+// through the MACCommand decoder and through the FOpts of a data frame.
+func cmdTypeEvents(c *ctx) {
+	for _, k := range cmdKeys {
+		var dir string
+		var cid int
+		fmt.Sscanf(k, "%[a-z]/%d", &dir, &cid)
+		if i := strings.Index(k, "/"); i > 0 {
+			dir = k[:i]
+			fmt.Sscanf(k[i+1:], "%d", &cid)
+		}
+		b := append([]byte{byte(cid)}, make([]byte, cmdTab[k].size)...)
+		name := func(p lorawan.MACCommandPayload) string {
+			if p == nil {
+				return ""
+			}
+			t := reflect.TypeOf(p)
+			if t.Kind() == reflect.Ptr {
+				t = t.Elem()
+			}
+			return t.Name()
+		}
+		var mc lorawan.MACCommand
+		res, _ := observeFast(func() error { return mc.UnmarshalBinary(dir == "up", b) })
+		c.emit(M{"ev": "cmdtype", "via": "MACCommand", "dir": dir, "cid": cid, "err": res, "ty": name(mc.Payload)})
+		if len(b) <= 15 {
+			mt := lorawan.UnconfirmedDataDown
+			if dir == "up" {
+				mt = lorawan.UnconfirmedDataUp
+			}
+			frame := append(append([]byte{byte(mt) << 5, 1, 2, 3, 4, byte(len(b)), 0, 0}, b...), 0, 0, 0, 0)
+			var phy lorawan.PHYPayload
+			ty := ""
+			res, _ := observeFast(func() error {
+				if err := phy.UnmarshalBinary(frame); err != nil {
+					return err
+				}
+				if err := phy.DecodeFOptsToMACCommands(); err != nil {
+					return err
+				}
+				if fo := phy.MACPayload.(*lorawan.MACPayload).FHDR.FOpts; len(fo) == 1 {
+					if m, ok := fo[0].(*lorawan.MACCommand); ok {
+						ty = name(m.Payload)
+					}
+				}
+				return nil
+			})
+			c.emit(M{"ev": "cmdtype", "via": "FOpts", "dir": dir, "cid": cid, "err": res, "ty": ty})
+		}
+	}
+}
+
 func drvMacCmd(c *ctx) error {
 	switch c.mode {
 	case "values": // C07 (i) + C06: values over the full Go field domains
+		cmdTypeEvents(c)
 		for i := 0; i < c.n; i++ {
 			k := cmdKeys[i%len(cmdKeys)]
 			c.emit(encEvent(k, c.genCmdVal(k, c.rnd.Intn(3) == 0)))
